@@ -29,6 +29,12 @@ pub struct FcPackage {
 #[derive(Debug, Clone, Serialize, Deserialize)]
 pub struct FcWorld {
   pub packages: Vec<FcPackage>,
+  /// registry form: the packages are published JSR packages (https://jsr.io/<name>/1.0.0/...), reached from
+  /// file:///root.ts which imports the packages named in `root`; cross-package references use jsr: specifiers
+  #[serde(default)]
+  pub registry: bool,
+  #[serde(default)]
+  pub root: Vec<String>,
 }
 
 impl FcWorld {
@@ -36,7 +42,28 @@ impl FcWorld {
     format!("{}{}", pkg.base, file)
   }
   pub fn id_of(&self, url: &str) -> String {
-    url.strip_prefix("file:///").unwrap_or(url).to_string()
+    url.strip_prefix("file:///").or_else(|| url.strip_prefix("https://jsr.io/@s/")).unwrap_or(url).replace("/1.0.0/", "/")
+  }
+
+  /// The same packages published to the registry and consumed from a root module.
+  pub fn to_registry(&self) -> FcWorld {
+    let mut w = self.clone();
+    w.registry = true;
+    w.root = w.packages.iter().map(|p| p.name.clone()).collect();
+    let dirs: Vec<(String, String)> = self.packages.iter().map(|p| (p.base.trim_start_matches("file:///").trim_end_matches('/').to_string(), p.name.clone())).collect();
+    for p in &mut w.packages {
+      p.base = format!("https://jsr.io/{}/1.0.0/", p.name);
+      for src in p.files.values_mut() {
+        for (dir, name) in &dirs {
+          *src = src.replace(&format!("\"../{dir}/mod.ts\""), &format!("\"jsr:{name}@1\""));
+        }
+      }
+    }
+    w
+  }
+
+  pub fn root_source(&self) -> String {
+    self.root.iter().enumerate().map(|(i, n)| format!("import * as r{i} from \"jsr:{n}@1\";\nexport const k{i}: typeof r{i} = null as any;\n")).collect()
   }
 }
 
@@ -91,6 +118,9 @@ pub fn members(world: &FcWorld) -> Vec<WorkspaceMember> {
 }
 
 pub fn build_graph(world: &FcWorld) -> ModuleGraph {
+  if world.registry {
+    return build_graph_registry(world);
+  }
   let mut files = HashMap::new();
   let mut roots = vec![];
   for p in &world.packages {
@@ -108,7 +138,37 @@ pub fn build_graph(world: &FcWorld) -> ModuleGraph {
   g
 }
 
+fn build_graph_registry(world: &FcWorld) -> ModuleGraph {
+  use sha2::Digest;
+  let mut files = HashMap::new();
+  files.insert("file:///root.ts".to_string(), world.root_source());
+  for p in &world.packages {
+    let mut manifest = serde_json::Map::new();
+    for (f, src) in &p.files {
+      files.insert(world.url(p, f), src.clone());
+      let mut h = sha2::Sha256::new();
+      h.update(src.as_bytes());
+      manifest.insert(format!("/{f}"), json!({"size": src.len(), "checksum": format!("sha256-{:x}", h.finalize())}));
+    }
+    files.insert(format!("https://jsr.io/{}/meta.json", p.name), json!({"versions": {"1.0.0": {}}}).to_string());
+    files.insert(format!("https://jsr.io/{}/1.0.0_meta.json", p.name), json!({"exports": p.exports, "manifest": manifest}).to_string());
+  }
+  let loader = FileLoader { files };
+  let mut g = ModuleGraph::new(GraphKind::All);
+  let exec = crate::ops::InlineExecutor;
+  futures::executor::block_on(g.build(vec![ModuleSpecifier::parse("file:///root.ts").unwrap()], vec![], &loader, BuildOptions { executor: &exec, ..Default::default() }));
+  g
+}
+
 pub fn run_fast_check(world: &FcWorld, g: &mut ModuleGraph, cache: Option<&MemCache>) {
+  if world.registry {
+    g.build_fast_check_type_graph(BuildFastCheckTypeGraphOptions {
+      fast_check_cache: cache.map(|c| c as &dyn FastCheckCache),
+      fast_check_dts: false,
+      ..Default::default()
+    });
+    return;
+  }
   let ms = members(world);
   g.build_fast_check_type_graph(BuildFastCheckTypeGraphOptions {
     fast_check_cache: cache.map(|c| c as &dyn FastCheckCache),
@@ -156,7 +216,8 @@ fn pat_names(p: &Pat, out: &mut BTreeSet<String>) {
 
 fn decl_names(d: &Decl, out: &mut BTreeSet<String>, kinds: &mut IndexMap<String, String>) {
   let mut put = |n: String, k: &str, out: &mut BTreeSet<String>| {
-    kinds.insert(n.clone(), k.to_string());
+    // the first declaration of a name decides (fast check may add a merging namespace for expando properties)
+    kinds.entry(n.clone()).or_insert_with(|| k.to_string());
     out.insert(n);
   };
   match d {
@@ -600,7 +661,8 @@ pub fn project(world: &FcWorld, g: &ModuleGraph) -> Value {
     .packages
     .iter()
     .map(|p| {
-      let eps: Vec<String> = p.exports.values().map(|e| world.id_of(ModuleSpecifier::parse(&p.base).unwrap().join(e).unwrap().as_str())).collect();
+      // a published package is analysed from the exports the graph uses: every consumer here imports "jsr:<name>@1" (".")
+      let eps: Vec<String> = p.exports.iter().filter(|(k, _)| !world.registry || k.as_str() == ".").map(|(_, e)| e).map(|e| world.id_of(ModuleSpecifier::parse(&p.base).unwrap().join(e).unwrap().as_str())).collect();
       let files: Vec<String> = p.files.keys().map(|f| world.id_of(&world.url(p, f))).collect();
       (p.name.clone(), json!({"entrypoints": eps, "files": files}))
     })
@@ -1108,12 +1170,18 @@ pub fn gen_world(rng: &mut StdRng, slow: f64) -> FcWorld {
     }
     packages.push(FcPackage { name: format!("@s/{pk}"), base: format!("file:///{pk}/"), exports, files: fmap });
   }
-  FcWorld { packages }
+  FcWorld { packages, registry: false, root: vec![] }
 }
 
 /// One source edit: returns the edited world and a description.
 pub fn edit_world(rng: &mut StdRng, world: &FcWorld) -> (FcWorld, String) {
   let mut w = world.clone();
+  // registry form: the root stops importing one of the packages (it may stay reachable through another package)
+  if w.registry && w.root.len() > 1 && rng.gen_bool(0.5) {
+    let i = rng.gen_range(0..w.root.len());
+    let dropped = w.root.remove(i);
+    return (w, format!("root no longer imports {dropped}"));
+  }
   let pi = rng.gen_range(0..w.packages.len());
   let fi = rng.gen_range(0..w.packages[pi].files.len());
   let (fname, src) = w.packages[pi].files.get_index_mut(fi).map(|(k, v)| (k.clone(), v)).unwrap();
@@ -1206,7 +1274,7 @@ pub fn render_program(prog: &Value, idx: usize) -> FcWorld {
   }
   let mut exports = IndexMap::new();
   exports.insert(".".to_string(), format!("./{entry}.ts"));
-  FcWorld { packages: vec![FcPackage { name: "@s/p1".into(), base: "file:///p1/".into(), exports, files }] }
+  FcWorld { packages: vec![FcPackage { name: "@s/p1".into(), base: "file:///p1/".into(), exports, files }], registry: false, root: vec![] }
 }
 
 /// Renders one shape of Transform.tla as a one-module workspace package whose only public API is that declaration.
@@ -1389,5 +1457,5 @@ pub fn render_shape(shape: &Value) -> FcWorld {
   }
   let mut exports = IndexMap::new();
   exports.insert(".".to_string(), "./mod.ts".to_string());
-  FcWorld { packages: vec![FcPackage { name: "@s/shape".into(), base: "file:///shape/".into(), exports, files }] }
+  FcWorld { packages: vec![FcPackage { name: "@s/shape".into(), base: "file:///shape/".into(), exports, files }], registry: false, root: vec![] }
 }
